@@ -118,6 +118,12 @@ def oracle_nnls(ck, tier, deep):
             if dev > 1e-8 or A.min() < 0:
                 ck.violation(dict(site="daun", clause="nnls-homogeneity"), dict(degree=degree, lam=lam, P=P.tolist()),
                              f"daun reg='nonneg': T(λP) != λT(P) (rel {dev:.3g}) or negative output {A.min():.3g}")
+            # detector counts: an integer image is transformed as its float copy
+            Pi = np.round(np.abs(P) * 50).astype([np.int64, np.int32, np.uint16][int(rng.integers(0, 3))])
+            Ci, Cf = quiet(abel.daun.daun_transform, Pi, degree=degree, reg="nonneg"), quiet(abel.daun.daun_transform, Pi.astype(float), degree=degree, reg="nonneg")
+            if np.abs(np.asarray(Ci, float) - Cf).max() > 1e-12 * max(1.0, np.abs(Cf).max()):
+                ck.violation(dict(site="daun", clause="nnls-integer-dtype"), dict(degree=degree, dtype=str(Pi.dtype), P=Pi.tolist()),
+                             f"daun reg='nonneg': {Pi.dtype} data differ from their float copy by {np.abs(np.asarray(Ci, float) - Cf).max():.3g}")
             # each row is solved on its own: neighbouring rows that are nearly (not exactly) equal keep their own solutions
             P3 = np.vstack([P[0], P[0] * (1 + 3e-6), P[1]])
             C = quiet(abel.daun.daun_transform, P3, degree=degree, reg="nonneg")
@@ -162,6 +168,13 @@ def oracle_tools(ck, tier, deep):
         tools.append((f"Distributions/{meth}/{order}/{odd}",
                       lambda Z, m=meth, o=order, od=odd: vmi.Distributions(origin=(5, 6) if od else "cc", rmax="MIN", order=o,
                                                                            odd=od, method=m).image(Z).cos()))
+    # one analysis object used for image after image (as rbasex does internally), origin nearer the bottom/right or the top/left edge
+    for meth, order, origin, rmax in itertools.product(["nearest", "linear"], [0, 2], [(7, 9), (3, 2), (7, 2)], ["MIN", "all"]):
+        D = vmi.Distributions(origin=origin, rmax=rmax, order=order, method=meth)
+        tools.append((f"Distributions-reused/{meth}/{order}/{origin}/{rmax}", lambda Z, D=D: D.image(Z).cos()))
+    for origin in [(8, 9), (4, 3), (9, 4)]:
+        tools.append((f"rbasex/inverse/origin={origin}", lambda Z, o=origin: abel.rbasex.rbasex_transform(Z, origin=o)[0]))
+        tools.append((f"rbasex/forward/origin={origin}", lambda Z, o=origin: abel.rbasex.rbasex_transform(Z, origin=o, direction="forward")[1].cos()))
     tools.append(("rbasex/inverse", lambda Z: abel.rbasex.rbasex_transform(Z)[0]))
     tools.append(("rbasex/forward/order4", lambda Z: abel.rbasex.rbasex_transform(Z, direction="forward", order=4)[0]))
     tools.append(("rbasex/L2", lambda Z: abel.rbasex.rbasex_transform(Z, reg=("L2", 5.0))[1].cos()))
